@@ -354,6 +354,10 @@ def _sys_list(tier):
             cuts.add(len(raw) * k // spread)
         if no is not None:
             cuts |= {no - 1, no, no + 1, no + 4, no + 7, no + 8, no + 9}
+            # decoded length = a multiple of the read size plus 1..3 bytes (a last, partial dword all by itself)
+            for m in (4096, 8192):
+                for k in range(1, (len(raw) - no - 8) // m + 1):
+                    cuts |= {no + 8 + m * k + 1, no + 8 + m * k + 2, no + 8 + m * k + 3}
         for c in sorted(x for x in cuts if 0 <= x <= len(raw)):
             out.append((bi, [{"kind": "truncate", "at": c}], "truncate"))
         for desc, f in crafted_for(base):
